@@ -8,6 +8,7 @@ import (
 	"bytes"
 	"encoding/hex"
 	"fmt"
+	"io"
 	"math/rand"
 	"strings"
 	"time"
@@ -49,10 +50,45 @@ func wresult(w gmars.WarriorData, err error, failure string) string {
 		hex.EncodeToString([]byte(w.Author)), hex.EncodeToString([]byte(w.Strategy)), cellsStr(w.Code), nilc)
 }
 
+// chunkReader returns at most n bytes per Read (a pipe, a network body, a MultiReader)
+type chunkReader struct {
+	r io.Reader
+	n int
+}
+
+func (c *chunkReader) Read(p []byte) (int, error) {
+	if len(p) > c.n {
+		p = p[:c.n]
+	}
+	return c.r.Read(p)
+}
+
+// readerFor chooses, by the content of the text, how the text reaches the code: a plain
+// in-memory reader, a reader that delivers a few bytes at a time, or a seekable reader of which a
+// header line has already been consumed (the text starts at the reader's CURRENT position)
+func readerFor(text []byte) io.Reader {
+	h := uint32(2166136261)
+	for _, b := range text {
+		h = (h ^ uint32(b)) * 16777619
+	}
+	switch h % 7 {
+	case 1:
+		return &chunkReader{bytes.NewReader(text), 1 + int(h>>8)%13}
+	case 2:
+		return &chunkReader{bytes.NewReader(text), 4095}
+	case 3:
+		hdr := []byte("X-header: consumed by the caller\n")
+		r := bytes.NewReader(append(append([]byte{}, hdr...), text...))
+		io.CopyN(io.Discard, r, int64(len(hdr)))
+		return r
+	}
+	return bytes.NewReader(text)
+}
+
 func runLoad(cfg gmars.SimulatorConfig, text []byte) string {
 	var w gmars.WarriorData
 	var err error
-	f := guarded(10*time.Second, func() { w, err = gmars.ParseLoadFile(bytes.NewReader(text), cfg) })
+	f := guarded(10*time.Second, func() { w, err = gmars.ParseLoadFile(readerFor(text), cfg) })
 	return wresult(w, err, f)
 }
 
@@ -552,6 +588,20 @@ func genLoadBad(out *bufio.Writer, rng *rand.Rand, count int) int {
 		}
 		text = corrupt(rng, text)
 		fmt.Fprintf(out, "L q%d loadbad %s %s - | %s\n", n, cfgFields(cfg), hexd(text), runLoad(cfg, text))
+		if n == 0 {
+			// the smallest texts: nothing, every single byte, a byte order mark with and without
+			// a newline, lone metadata keywords
+			tiny := [][]byte{{}, {0xef, 0xbb, 0xbf}, {0xef, 0xbb, 0xbf, '\n'}, {0xef, 0xbb}, {0xff, 0xfe}, []byte(";"), []byte(";name"), []byte(";strategy"),
+				[]byte("\r"), []byte("\r\n"), []byte(","), []byte("END"), []byte("ORG"), []byte("\xef\xbb\xbfMOV.I $ 0, $ 1\n")}
+			for b := 0; b < 256; b++ {
+				tiny = append(tiny, []byte{byte(b)})
+			}
+			for j, t := range tiny {
+				for _, c2 := range []gmars.SimulatorConfig{gmars.ConfigNOP94, gmars.ConfigKOTH88} {
+					fmt.Fprintf(out, "L qt%d_%d loadbad %s %s - | %s\n", j, c2.Mode, cfgFields(c2), dash(hexd(t)), runLoad(c2, t))
+				}
+			}
+		}
 		if n < 2 {
 			// very long lines with good and bad lines after them: whatever follows a long line is
 			// still read (a bad line still makes the read fail, a good one still counts)
